@@ -362,6 +362,12 @@ def string_level(ck, rng, thorough):
                 n_eval += check_string(ck, fails, nit, ltoks + gtoks, src, leaves, ["parse_expression"],
                                        f16=True, stream="group-juxt-adjacent")
             ck.case(key=("str-f16", ltoks + gtoks))
+    # witness of F40 (unary minus is x * -1): only the Decimal registry shows it
+    w = ("bin", "**", ("par", ("neg", ("par", ("bin", "", ("num", "0"), ("name", "m"))))), ("neg", ("num", "1")))
+    ws, wsrc, wleaves = to_string(rng, w, fancy=False)
+    for nit in nits:
+        n_eval += check_string(ck, fails, nit, ws, wsrc, wleaves, ["parse_expression"], stream="unary-minus-zero")
+    ck.case(key=("str-f40", ws))
     # (d) literals keep their type
     for nit in nits:
         ureg = registry(nit)
@@ -501,6 +507,8 @@ def no_execution(ck, rng, thorough):
                 pass
     n_val = n_exc = 0
     classes = {}
+    import warnings
+    warnings.simplefilter("ignore")      # displaying a warning reads the warning module's source line (linecache)
     for s in stream:
         for name, f in (("parse_expression", ureg.parse_expression),
                         ("from_string", lambda t: ParserHelper.from_string(t, float))):
@@ -535,6 +543,7 @@ def no_execution(ck, rng, thorough):
                               f"{name}({s!r}) fired audit event {ev[0][0]} {ev[0][1]}",
                               {"string": s, "path": name, "events": ev[:5]}))
             ck.case(key=("fuzz", name, s), nontrivial=len(s.strip()) > 0)
+    warnings.resetwarnings()
     ck.count("fuzz:value", n_val)
     ck.count("fuzz:exception", n_exc)
     ck.extra["no_execution_test"] = {
